@@ -4,10 +4,11 @@ pub mod c01;
 pub mod c02;
 pub mod c12;
 pub mod c13;
+pub mod c14;
 
 use crate::kernel::{Check, RunCtx, Stats, Tier, prng};
 
-pub static ALL: &[&'static dyn Check] = &[&c01::C01, &c02::C02, &c12::C12, &c13::C13];
+pub static ALL: &[&'static dyn Check] = &[&c01::C01, &c02::C02, &c12::C12, &c13::C13, &c14::C14];
 
 /// Determinism self-test: every case is planned and executed twice in this process; plans,
 /// findings and the statistics (which include every fault that fired and every probe) must be
@@ -102,6 +103,11 @@ pub fn selftest_domain(seed: u64, cases: u64, only: Option<&str>) -> i32 {
                         let d = crate::fmt::first_diff(&got, &made.expected);
                         println!("MISMATCH {spec:?} variant {variant}: end={:?} first_diff={d:?}", obs.end);
                         if let Some(i) = d {
+                            if let (Some(a), Some(b)) = (got.get(i), made.expected.get(i)) {
+                                let k = a.bytes().zip(b.bytes()).position(|(x, y)| x != y).unwrap_or(a.len().min(b.len()));
+                                let lo = k.saturating_sub(200);
+                                println!("   diff at char {k}: got ...{} / want ...{}", &a[lo..(k + 80).min(a.len())], &b[lo..(k + 80).min(b.len())]);
+                            }
                             println!("   got: {:?}", got.get(i).map(|s| crate::fmt::clip(s)));
                             println!("  want: {:?}", made.expected.get(i).map(|s| crate::fmt::clip(s)));
                         }
